@@ -42,6 +42,8 @@ func sortStr(s Sort) string {
 		return fmt.Sprintf("(_ BitVec %d)", s.W)
 	case KInt:
 		return "Int"
+	case KReal:
+		return "Real"
 	}
 	return "(_ FloatingPoint 11 53)"
 }
@@ -124,6 +126,12 @@ func (p *Printer) define(t *Term) {
 		body = fmt.Sprintf("((_ zero_extend %d) %s)", t.Sort.W-t.Args[0].Sort.W, a(0))
 	case OSExt:
 		body = fmt.Sprintf("((_ sign_extend %d) %s)", t.Sort.W-t.Args[0].Sort.W, a(0))
+	case ONative:
+		if len(t.Args) == 0 {
+			body = t.Name
+		} else {
+			body = nary(t.Name)
+		}
 	case OFFromKey:
 		panic("print: key-backed float used outside comparisons: " + t.String())
 	case OFFromBits:
